@@ -202,7 +202,7 @@ def VExp.WF : VExp R → Prop
   | .binary e1 e2 _ => e1.WF ∧ e2.WF ∧ e1.size = e2.size
   | .concat e1 e2 => e1.WF ∧ e2.WF
   | .mvprod m v _ => m.WF ∧ v.WF ∧ m.size2 = v.size
-  | .rowFold m _ _ => m.WF
+  | .rowFold m _ _ => m.WF ∧ 0 < m.size2
   | .range e s t => e.WF ∧ s ≤ t ∧ t ≤ e.size
   | .row m i => m.WF ∧ i < m.size1
   | .diag m => m.WF ∧ m.size1 = m.size2
